@@ -283,6 +283,10 @@ def run_case(case):
                 add("discrete_rejected_ok")
             except Exception as e:  # noqa: BLE001
                 res["violations"].append({"key": f"discrete_other_exception|{type(e).__name__}", "what": f"DiscreteGrid({obj!r}) raised {type(e).__name__}"})
+        # many categories (an age or type index): the codes are 0 .. n-1 whatever n is
+        for n_cat in (127, 128, 129, 200, 256, 257, 300):
+            judge_discrete(f"range({n_cat})", tuple(range(n_cat)), res, add, "class")
+            add("discrete_many_category_classes")
         # order of operations in one process: a valid base category class is used first, then a
         # dataclass SUBCLASS that adds categories (anything remembered on the class is inherited)
         from dataclasses import make_dataclass
